@@ -41,6 +41,12 @@ def sitems? : Nat → List Nat → Option (List SItem)
     if n ≤ rest.length then (sitems? fuel (rest.drop n)).map (SItem.hexnl d (rest.take n) k :: ·) else none
   | _, _ => none
 
+def numBody? (ip fr : List Nat) : Option NumBody :=
+  match fr, ip with
+  | d :: ds, _ => some (.frac ip d ds)
+  | [], d :: ds => some (.int d ds)
+  | [], [] => none
+
 /-- one lexeme of `Lex2`, written `kind,arg,…` (arguments: dotted hex code points) -/
 def lex2? (w : String) : Option Lex2 :=
   match (w.splitOn ",").map fun a => (a, decCps a) with
@@ -58,6 +64,9 @@ def lex2? (w : String) : Option Lex2 :=
   | [("ur", _), (_, some [u]), (_, some (h :: hs))] => some (.urange u h hs)
   | [("cmt", _), (_, some body)] => some (.cmt body)
   | [("cdc", _)] => some .cdc
+  | [("pctg", _), (_, some sg), (_, some ip), (_, some fr)] => (numBody? ip fr).map (Lex2.pctG sg ·)
+  | [("dimg", _), (_, some sg), (_, some ip), (_, some fr), (_, some (c :: cs))] =>
+      (numBody? ip fr).map (Lex2.dimG sg · c cs)
   | [("nums", _), (_, some sg), (_, some (d :: ds))] => some (.numS sg d ds)
   | [("numf", _), (_, some sg), (_, some ip), (_, some (d :: ds))] => some (.numF sg ip d ds)
   | [("uri2", _), (_, some [u]), (_, some (h :: hs)), (_, some (h2 :: hs2))] => some (.urangeI u h hs h2 hs2)
